@@ -335,6 +335,19 @@ def run(ctx):
         seq = [gen_matrix(ctx.rng, pool) for _ in range(ctx.rng.randint(3, 6))]
         for pos in sorted(ctx.rng.sample(range(len(seq) + 1), 2), reverse=True):
             seq.insert(pos, "PROBE")
+        if ctx.rng.random() < 0.3 and probe["style"] not in ("nan", "inf"):
+            # right before the last probe: a matrix that prints like the probe but is another one (one cell differs in
+            # the eleventh digit - which breaks a tie if that value occurs twice in its criterion)
+            import copy as _copy
+            near = _copy.deepcopy(probe)
+            n_, m_ = len(near["matrix"]), len(near["matrix"][0])
+            j_ = ctx.rng.randrange(m_)
+            col = [r[j_] for r in near["matrix"]]
+            tied = [i for i in range(n_) if col.count(col[i]) > 1]
+            i_ = ctx.rng.choice(tied) if tied else ctx.rng.randrange(n_)
+            near["matrix"][i_][j_] = near["matrix"][i_][j_] * (1 + 2.0 ** -36)
+            near["style"] = "near_probe"
+            seq.append(near)
         seq.append("PROBE")
         cases.append({"spec": spec, "probe": probe, "seq": seq, "oseed": ctx.rng.randrange(10 ** 6),
                       "derive_at": ctx.rng.randrange(len(seq)) if ctx.rng.random() < 0.5 else None})
